@@ -316,13 +316,17 @@ Fixpoint fs_lookup (fs : fsmap) (name : bytes) : option fsentry :=
   | (n, e) :: rest => if beq n name then Some e else fs_lookup rest name
   end.
 
-Fixpoint split_on (sep : N) (s : bytes) (cur : bytes) : list bytes :=
+(* strings.Split(s, "/") *)
+Fixpoint segments (s : bytes) : list bytes :=
   match s with
-  | [] => [rev cur]
-  | c :: r => if N.eqb c sep then rev cur :: split_on sep r [] else split_on sep r (c :: cur)
+  | [] => [[]]
+  | c :: r =>
+      if N.eqb c 47 then [] :: segments r
+      else match segments r with
+           | seg :: rest => (c :: seg) :: rest
+           | [] => [[c]]
+           end
   end.
-
-Definition segments (s : bytes) : list bytes := split_on 47 s [].
 
 Definition dot := [46%N].
 Definition dotdot := [46%N; 46%N].
@@ -354,6 +358,27 @@ Definition join_dir (includer name : bytes) : bytes :=
   match clean_segs (dirsegs ++ segments name) [] with
   | [] => dot
   | segs => join_segs segs
+  end.
+
+(* os.Stat on a cleaned relative path: a path component that is a regular file makes the
+   lookup fail with ENOTDIR *)
+Inductive stat_res := SFile (content : bytes) | SDir | SMissing | SNotDir.
+
+Fixpoint proper_prefixes (segs : list bytes) (acc : list bytes) : list (list bytes) :=
+  match segs with
+  | [] => []
+  | [_] => []
+  | s :: rest => (acc ++ [s]) :: proper_prefixes rest (acc ++ [s])
+  end.
+
+Definition stat_path (fs : fsmap) (p : bytes) : stat_res :=
+  match fs_lookup fs p with
+  | Some (FFile c) => SFile c
+  | Some FDir => SDir
+  | None =>
+      if existsb (fun pre => match fs_lookup fs (join_segs pre) with Some (FFile _) => true | _ => false end)
+                 (proper_prefixes (segments p) [])
+      then SNotDir else SMissing
   end.
 
 (* validateIncludeFileName over the regenerated check list *)
@@ -630,6 +655,7 @@ Section Scan.
                 | None => (CPanic CPLexemeValue, st)
                 | Some raw =>
                     let name := unquote raw in
+                    if beq name [] then required else
                     let bad (st : cstate) (why : bytes) :=
                       (CErr (lexeme_error st kw
                               (mkMsg "%s (%s) %q: %s" [str ErrConsts.jerr_IncorrectParameter; fname; name; why])), st) in
@@ -639,10 +665,11 @@ Section Scan.
                     | Some None =>
                         let p := join_dir (file_name st (cs_file st)) name in
                         let st := add_log st "stat" p in
-                        match fs_lookup fs p with
-                        | None => bad st (str "does not exist")
-                        | Some FDir => bad st (str "is a directory")
-                        | Some (FFile content) =>
+                        match stat_path fs p with
+                        | SMissing => bad st (str "does not exist")
+                        | SNotDir => bad st (str "stat " ++ p ++ str ": not a directory")
+                        | SDir => bad st (str "is a directory")
+                        | SFile content =>
                             let st := add_log st "read" p in
                             (* Stack.Push(core.scanner, keyword.Begin()) *)
                             let me := file_name st (cs_file st) in
